@@ -142,11 +142,19 @@ pub fn lex(source: &str, source_filename: &str) -> Vec<LexedToken>
 {
 	let mut tokens = Vec::new();
 	let mut offset = 0;
-	for (i, line) in source.lines().enumerate()
+	for (i, raw_line) in source.split_inclusive('\n').enumerate()
 	{
+		// Strip the line ending like `str::lines()` does, but remember how
+		// many characters it took up: spans are character offsets into the
+		// source, and a "\r\n" line ending is two characters long.
+		let line = match raw_line.strip_suffix('\n')
+		{
+			Some(line) => line.strip_suffix('\r').unwrap_or(line),
+			None => raw_line,
+		};
 		// Syntax should remain such that each line can be lexed independently.
 		lex_line(line, source_filename, offset, 1 + i, &mut tokens);
-		offset += line.chars().count() + 1;
+		offset += raw_line.chars().count();
 	}
 	if source.len() == 0
 	{
